@@ -318,8 +318,12 @@ func (cc *checkCtx) verifyFn(name string, fn *ssa.Function) {
 		cc.funcs = append(cc.funcs, rep)
 		fmt.Fprintf(os.Stderr, "gvc: %s: %v\n", name, res.Err)
 		if cc.fnInLedger(name) {
-			// it verified on the pinned tree and can no longer be brought into the subset
-			cc.reportFailure(x, &OblResult{O: &Obligation{Name: name + "#verifiable", Kind: "subset", Func: name, Src: res.Err.Error()}, Ans: &SolverAnswer{Status: "unknown", Output: res.Err.Error()}}, true)
+			// It verified on the pinned tree and can no longer be processed: its contract names
+			// something that no longer exists (a renamed local, a removed loop) or its body left
+			// the supported subset. No obligation could be generated, so nothing failed: this is
+			// reported as undecided, never as a violation (a harmless refactoring does this too).
+			cc.undecided = append(cc.undecided, name+"#verifiable ("+rep.Status+": "+trunc(res.Err.Error(), 160)+")")
+			fmt.Printf("UNDECIDED property=%s function=%s reason=%s\n", cc.prop, name, rep.Status)
 		}
 		return
 	}
